@@ -584,6 +584,7 @@ func familyHandler(t *testing.T) {
 	rng := T.rng
 	prop := T.prop
 	synctest.Test(t, func(t *testing.T) {
+		defer guard()
 		if rp := loadReplay(); rp != nil {
 			// a replay re-runs the scenario of the recorded seed
 			if s, ok := rp["seed"].(float64); ok {
